@@ -7,6 +7,7 @@ reamber/algorithms/timing/{TimingMap.py, utils/*.py} on every run.
 import Reamber.Lemmas.Sweep
 import Reamber.Lemmas.Snapper
 import Reamber.Lemmas.TimingChain
+import Reamber.Lemmas.TimingOrder
 import Reamber.Spec.Timing
 import Reamber.Generated.Consts
 
@@ -112,6 +113,63 @@ change `i` is `timeAt` of that change's own position (`changeTimes`). -/
 theorem stored_times_eq_changeTimes (t0 : Rat) (cs : List BcSnap) (hwf : wfChanges cs = true)
     (hs : sortedSnaps cs = true) : (tmOf t0 cs).map (·.offset) = changeTimes t0 cs :=
   tmOf_offsets_eq_changeTimes t0 cs hwf hs
+
+/-! ### the order of the tempo list does not matter (`from_bpm_changes_offset`, `BpmList.to_timing_map`) -/
+
+/-- **`offsets` / `snaps` / `beats` are invariant under permutation of the tempo list** when no two changes share
+an offset: the model takes the list as given, `bpm_changes_offset_to_snap` sorts it (in place — the sorted list
+is also what the sweeps index), and sorting is order-independent for an injective key. -/
+theorem timing_queries_perm_invariant (g : Array Rat) {tm tm' : List BcOff} (hp : tm.Perm tm')
+    (hd : DistinctOffsets tm) :
+    (∀ σ qs, offsetsWith g σ tm' qs = offsetsWith g σ tm qs) ∧
+    (∀ σ qs, snapsWith g σ tm' qs = snapsWith g σ tm qs) ∧
+    (∀ σq σs qs, beatsWith g σq σs tm' qs = beatsWith g σq σs tm qs) ∧
+    fromBcOff tm' = fromBcOff tm := by
+  have h := (sortBcOff_eq_of_perm hp hd).symm
+  exact ⟨fun σ qs => offsetsWith_congr g σ qs h, fun σ qs => snapsWith_congr g σ qs h,
+    fun σq σs qs => beatsWith_congr g σq σs qs h, h⟩
+
+/-- **Every entry point, every list order.**  Under the hypotheses of `offsets_correct` with strictly ascending
+changes: for EVERY permutation `tm'` of the stored times — the list handed to `TimingMap(bpm_changes_offset=…)`,
+to `TimingMap.from_bpm_changes_offset` (`fromBcOff`), or the rows of a `BpmList` given to `to_timing_map()`
+(`bpmListToTimingMap`) — `offsets` returns the integration `timeAt`, in query order. -/
+theorem offsets_correct_any_order (g : Array Rat) (hg : GridOK g) (t0 : Rat) (cs : List BcSnap)
+    (hwf : wfChanges cs = true) (hs : strictSnaps cs = true) (h0 : firstAtZero cs = true)
+    (hgc : gridCompatible g.toList cs = true) (hm : metronomeOk cs = true)
+    (σ : List Nat) (qs : List Snap) (hσ : SortsAsc σ qs) (hq : ∀ q ∈ qs, queryOk cs q = true)
+    (tm' : List BcOff) (hp : tm'.Perm (tmOf t0 cs)) :
+    offsetsWith g σ tm' qs = .ok (qs.map (timeAt t0 cs)) ∧
+    offsetsWith g σ (fromBcOff tm') qs = .ok (qs.map (timeAt t0 cs)) := by
+  have hs' := sortedSnaps_of_strict hs
+  obtain ⟨tm, h1, h2⟩ := offsets_correct g hg t0 cs hwf hs' h0 hgc hm σ qs hσ hq
+  have htm : tm = tmOf t0 cs := by
+    have := fromBcSnapNoReseat_eq t0 cs hwf hs' h0
+    rw [h1] at this
+    exact Except.ok.inj this
+  subst htm
+  have hd := tmOf_distinct t0 cs hwf hs
+  have hsort : sortBcOff tm' = sortBcOff (tmOf t0 cs) := (sortBcOff_eq_of_perm hp.symm hd).symm
+  refine ⟨by rw [offsetsWith_congr g σ qs hsort]; exact h2, ?_⟩
+  have hsort2 : sortBcOff (fromBcOff tm') = sortBcOff (tmOf t0 cs) := by
+    unfold fromBcOff; rw [sortBcOff_idem, hsort]
+  rw [offsetsWith_congr g σ qs hsort2]; exact h2
+
+/-- `BpmList.to_timing_map()` on rows `(offset, bpm, metronome)` in any order: nothing dropped, nothing merged —
+if the rows are a permutation of the stored changes, the map answers with `timeAt`. -/
+theorem offsets_correct_bpmList (g : Array Rat) (hg : GridOK g) (t0 : Rat) (cs : List BcSnap)
+    (hwf : wfChanges cs = true) (hs : strictSnaps cs = true) (h0 : firstAtZero cs = true)
+    (hgc : gridCompatible g.toList cs = true) (hm : metronomeOk cs = true)
+    (σ : List Nat) (qs : List Snap) (hσ : SortsAsc σ qs) (hq : ∀ q ∈ qs, queryOk cs q = true)
+    (rows : List (Rat × Rat × Rat))
+    (hp : (rows.map fun r => (⟨r.2.1, r.2.2, r.1⟩ : BcOff)).Perm (tmOf t0 cs)) :
+    offsetsWith g σ (bpmListToTimingMap rows) qs = .ok (qs.map (timeAt t0 cs)) :=
+  (offsets_correct_any_order g hg t0 cs hwf hs h0 hgc hm σ qs hσ hq _ hp).2
+
+/-- `to_timing_map` keeps every row: a pure time-signature change (same bpm, new metronome) stays in the map -/
+theorem bpmListToTimingMap_perm (rows : List (Rat × Rat × Rat)) :
+    (bpmListToTimingMap rows).Perm (rows.map fun r => (⟨r.2.1, r.2.2, r.1⟩ : BcOff)) := by
+  unfold bpmListToTimingMap fromBcOff sortBcOff
+  exact isort_perm _ _
 
 /-! non-vacuity: concrete instances of the hypotheses -/
 
